@@ -84,23 +84,24 @@ type Explorer struct {
 	assertLbl map[string]int  // label -> times discharged
 	samples   []string
 
-	maxPaths     int
-	deadline     time.Time
-	pathUnknown  bool
-	dumpDir      string
-	dumped       int
-	maxDump      int
-	queryTimeout int
-	witness      bool // reachability-witness mode: final assert(false)
-	oblSites     map[string]int
-	stubHits     map[string]int
-	witnesses    [][]inputRec
-	lastProgress time.Time
-	concLimit    int
-	decSites     map[string]int
-	shardK       int
-	shardN       int
-	shardDone    bool
+	maxPaths       int
+	deadline       time.Time
+	pathUnknown    bool
+	dumpDir        string
+	dumped         int
+	maxDump        int
+	queryTimeout   int
+	witness        bool // reachability-witness mode: final assert(false)
+	oblSites       map[string]int
+	stubHits       map[string]int
+	witnesses      [][]inputRec
+	lastProgress   time.Time
+	concLimit      int
+	decSites       map[string]int
+	abandonSamples int
+	shardK         int
+	shardN         int
+	shardDone      bool
 }
 
 func newExplorer(i *interpreter, s *Solver) *Explorer {
@@ -495,7 +496,8 @@ func (ex *Explorer) runOnePath(entry *ssa.Function) {
 				case "abandon":
 					outcome = "abandoned"
 					ex.stats.AbandonReasons[trimReason(p.msg)]++
-					if len(ex.samples) < 5 {
+					if ex.abandonSamples < 5 {
+						ex.abandonSamples++
 						ex.samples = append(ex.samples, "abandoned: "+p.msg+" @ "+p.site)
 					}
 				case "assert":
